@@ -159,7 +159,7 @@ impl Method for UpperReversalSignal {
 	fn new(params: Self::Params, &value: &Self::Input) -> Result<Self, Error> {
 		let (left, right) = params;
 
-		if left == 0 || right == 0 || left.saturating_add(right) == PeriodType::MAX {
+		if left == 0 || right == 0 || left.saturating_add(right) >= PeriodType::MAX - 1 {
 			return Err(Error::WrongMethodParameters);
 		}
 
@@ -300,7 +300,7 @@ impl Method for LowerReversalSignal {
 	fn new(params: Self::Params, &value: &Self::Input) -> Result<Self, Error> {
 		let (left, right) = params;
 
-		if left == 0 || right == 0 || left.saturating_add(right) == PeriodType::MAX {
+		if left == 0 || right == 0 || left.saturating_add(right) >= PeriodType::MAX - 1 {
 			return Err(Error::WrongMethodParameters);
 		}
 
